@@ -264,10 +264,26 @@ def c18():
     for k in range(4, 9 if TIER == "quick" else 12):
         for _ in range(60 if TIER == "quick" else 1000):
             bad.append("$9$" + "".join(RNG.choice(alpha) for _ in range(k)))
+    # truncated encryptions: a string cut inside a character group is malformed
+    for salt in list(alpha)[:: (8 if TIER == "quick" else 1)]:
+        for n in range(1, 10):
+            p = "".join(chr(RNG.randrange(256)) for _ in range(n))
+            c = js.juniper_nonrandom_encrypt(p, salt)
+            bad += [c[:-1], c[:-2], c[:-3]]
+
+    def structurally_ok(s, d):
+        """an accepted string must consist of the magic, the salt character, its filler and exactly one complete group
+        per plaintext character (group lengths and filler counts are the codec's tables, not its code)"""
+        extra = js.EXTRA[s[3]]
+        return len(s) - 4 - extra == sum(len(js.ENCODING[i % len(js.ENCODING)]) for i in range(len(d)))
+
     for s in bad:
         note(("bad", s))
         try:
-            js.juniper_decrypt(s)
+            d = js.juniper_decrypt(s)
+            if not structurally_ok(s, d):
+                fail("C18.garbage", {"crypt": s, "decrypted": d}, "a malformed string (incomplete character group) "
+                     "was decrypted instead of being refused", "juniper_decrypt")
         except ValueError:
             pass
         except Exception as e:  # noqa
@@ -280,7 +296,7 @@ BOUNDS = {
     "C06": "all strings of length <= 5 (quick) / 6 (thorough) over {1,2,5,.,:,/,a,space}; 35 address spellings x 12 delimiters "
            "x 3 positions; all single-character edits of the spellings; real two-pass substitution vs an independent token-level reference",
     "C11": "block boundaries +-2 and 50/2000 random numbers x 8/50 salts; 4 salts x 5 numbers x both list orders with the replacement itself listed; ~10k generated lines (standalone / embedded / prefix-of-each-other numbers)",
-    "C18": "72 salts (65 alphabet characters, None, empty, non-alphabet) x all 256 single characters (+ pairs, 6/200 random long plaintexts); "
+    "C18": "truncated encryptions (9 lengths x 9/65 salts x 3 cuts) must be refused or decode structurally; 72 salts (65 alphabet characters, None, empty, non-alphabet) x all 256 single characters (+ pairs, 6/200 random long plaintexts); "
            "~300/5000 malformed strings",
 }
 
